@@ -4,7 +4,8 @@
    [reach c ops m]: m is the state after Start with configuration c and ANY list of writes ops
    (whatever each write returned). *)
 From Coq Require Import List ZArith Bool.
-From GoHls Require Import Model.Mux Proofs.MuxStream Proofs.MuxLift Proofs.MuxWindow Proofs.MuxHistory Proofs.MuxPlaylist.
+From GoHls Require Import Model.Mux Proofs.MuxStream Proofs.MuxLift Proofs.MuxWindow Proofs.MuxHistory Proofs.MuxPlaylist
+  Proofs.MuxPartIds Proofs.MuxAgree.
 Import ListNotations.
 Local Open Scope Z_scope.
 
@@ -67,6 +68,25 @@ Theorem c04_preload_hint : forall c ops m, reach c ops m -> forall si pl s,
   pl_hint pl = match c_variant (norm_cfg c) with LL => Some (st_nextPart s) | _ => None end.
 Proof. exact playlist_hint. Qed.
 Print Assumptions c04_preload_hint.
+
+(* part numbers increase by exactly one across the whole stream: in every reachable state the parts of a
+   stream (evicted, listed and open segments, in order) are numbered 0, 1, 2, ... without a hole; the
+   stream's part counter is the next number and the number of the open part (the preload hint) *)
+Theorem c04_part_numbers_consecutive : forall c m0 ops si s,
+  start c = Ok m0 -> nth_error (m_streams (mux_run m0 ops)) si = Some s ->
+  counted 0 (map p_id (all_parts s)) /\ st_nextPart s = Z.of_nat (length (all_parts s))
+  /\ (forall p, st_openpart s = Some p -> p_id p = st_nextPart s).
+Proof. exact part_ids_consecutive. Qed.
+Print Assumptions c04_part_numbers_consecutive.
+
+(* all streams of one muxer expose the same media sequence numbers and durations (sequential part: between
+   any two writes): same segment counter, same number of evicted segments (= EXT-X-MEDIA-SEQUENCE), same
+   gap flags / ids / start and end times of the listed segments, same id and start of the open segment *)
+Theorem c04_streams_agree_between_writes : forall c m0 ops s1 s2,
+  start c = Ok m0 -> In s1 (m_streams (mux_run m0 ops)) -> In s2 (m_streams (mux_run m0 ops)) ->
+  shape s1 = shape s2.
+Proof. exact streams_agree. Qed.
+Print Assumptions c04_streams_agree_between_writes.
 
 (* ---------------------------------------------------------------------------------------------
    Last sentence of C04: "All streams of one muxer (video and audio renditions) expose the same
